@@ -257,6 +257,11 @@ fn after_redirect_cell(idx: u64, rec: &mut Rec) {
     let mut cfg = ReqCfg::new(method, "http://a.test/start");
     cfg.despite = despite;
     cfg.orig.push(("cookie".into(), b"c=1".to_vec()));
+    // every other cell: the Host of the first request is spelled out and the first hop leaves its authority
+    let leaves = idx % 2 == 1;
+    if leaves {
+        cfg.orig.push(("host".into(), b"a.test".to_vec()));
+    }
     let sends = needs_body(method) || despite;
     if sends {
         match framing {
@@ -274,7 +279,7 @@ fn after_redirect_cell(idx: u64, rec: &mut Rec) {
         Err(e) => return rec.fail("C17/setup", format!("{:?}", e)),
     };
     for h in 0..hops {
-        let hop = Hop { status, locations: vec![format!("/next{}", h).into_bytes()], with_body: h == 1 };
+        let hop = Hop { status, locations: vec![if leaves && h == 0 { b"http://b.test/elsewhere".to_vec() } else { format!("/next{}", h).into_bytes() }], with_body: h == 1 };
         rec.call();
         match follow_one(flow, &cfg, &eff, &original, &hop, policy) {
             Ok(Followed::Next(f, e)) => {
